@@ -598,12 +598,45 @@ fn tag_shadow_family(rng: &mut Rng, tag: usize) -> Vec<String> {
     }
 }
 
+/// let / let* / letrec forms that bind a name which is also visible outside, with inits (and
+/// closures created in inits) that read or assign that name: the region of each binding is the
+/// one R7RS gives it
+fn binder_shadow_family(rng: &mut Rng, tag: usize) -> Vec<String> {
+    let t = tag;
+    match rng.below(5) {
+        0 => vec![
+            format!("(define (bs{t} x) (let* ((y x) (x (* x 10)) (z (+ x y))) (list x y z)))"),
+            format!("(bs{t} 3)"),
+        ],
+        1 => vec![
+            format!("(define (bs{t} x) (let* ((x (+ x 1)) (x (* x 2))) x))"),
+            format!("(bs{t} 5)"),
+        ],
+        2 => vec![
+            format!("(define (bs{t} x) (let* ((get (lambda () x)) (put (lambda (v) (set! x v))) (x 99)) (put 100) (list (get) x)))"),
+            format!("(bs{t} 1)"),
+        ],
+        3 => vec![
+            format!("(define bx{t} 'global)"),
+            format!("(let* ((seen bx{t}) (bx{t} (list seen 'inner))) (list seen bx{t}))"),
+            format!("(let ((bx{t} (list bx{t})) (other bx{t})) (list bx{t} other))"),
+            format!("bx{t}"),
+        ],
+        _ => vec![
+            format!("(define (bs{t} x) (let ((x (+ x 1)) (y x)) (let* ((y (+ x y)) (x y)) (list x y))))"),
+            format!("(bs{t} 10)"),
+        ],
+    }
+}
+
 pub fn loop_session(rng: &mut Rng) -> Vec<Sx> {
     let n = 1 + rng.usize(2);
     let mut texts = vec![];
     for tag in 0..n {
         if rng.chance(1, 3) {
             texts.extend(tag_shadow_family(rng, tag));
+        } else if rng.chance(1, 3) {
+            texts.extend(binder_shadow_family(rng, tag));
         } else {
             texts.extend(loop_family(rng, tag));
         }
